@@ -82,6 +82,11 @@ LEAVES = [
       enf=True, strish=True),
     L("enum_brace", {"type": "string", "enum": ["{x}", "a}", "{{", "%s {}"]}, enf=True, strish=True),
     L("enum_excl", {"type": "string", "enum": ["a", "bbb"], "maxLength": 2}, enf=True, strish=True),
+    # enumerated strings that also name a format typify maps to a native type: membership is by exact text, not by the format's notion of equality
+    L("enum_fmt_uuid", {"type": "string", "format": "uuid", "enum": ["00000000-0000-0000-0000-000000000000", "f81d4fae-7dec-11d0-a765-00a0c91e6bf6"]}, enf=True, strish=True),
+    L("enum_fmt_ipv6", {"type": "string", "format": "ipv6", "enum": ["::1", "fe80::1"]}, enf=True, strish=True),
+    L("enum_fmt_ip", {"type": "string", "format": "ip", "enum": ["127.0.0.1", "::1"]}, enf=True, strish=True),
+    L("enum_fmt_date", {"type": "string", "format": "date", "enum": ["2020-02-29", "1999-12-31"]}, enf=True, strish=True),
     # enumerated strings under length bounds where byte length and character count fall on different sides of a bound
     L("enum_mb_len", {"type": "string", "minLength": 2, "maxLength": 4, "enum": ["\u00e9", "ab", "caf\u00e9", "mat\u00e9", "\u65e5\u672c\u8a9e\u6587", "\u65e5\u672c\u8a9e\u6587\u5b57", "soda", "toolong"]},
       enf=True, strish=True),
@@ -339,6 +344,20 @@ SOLO_COMPOSITES = [
     L("anyof3_nonadjacent_scalar", {"anyOf": [STR, INT, {"type": "string", "maxLength": 2}]}, ff=False, enf=False),
     L("oneof3_nonadjacent_tuple", {"oneOf": [{"type": "array", "items": [INT, INT], "minItems": 2, "maxItems": 2}, obj({"p": STR}, ["p"]),
                                              {"type": "array", "items": [INT, INT, INT], "minItems": 3, "maxItems": 3}]}, enf=True),
+    # anyOf / oneOf of objects that pin TWO shared required properties to constants, one to the same value and one to different values
+    # (a versioned tagged union): whether the branches are exclusive must not depend on which pinned property is looked at first
+    L("anyof_two_pinned", {"anyOf": [obj({"kind": {"type": "string", "enum": ["circle"]}, "version": {"type": "string", "enum": ["v1"]}, "r": INT}, ["kind", "version", "r"]),
+                                     obj({"kind": {"type": "string", "enum": ["square"]}, "version": {"type": "string", "enum": ["v1"]}, "s": INT}, ["kind", "version", "s"])]}, enf=True),
+    L("anyof_three_pinned", {"anyOf": [obj({"a": {"type": "string", "enum": ["x"]}, "b": {"type": "string", "enum": ["y"]}, "c": {"type": "string", "enum": ["p"]}}, ["a", "b", "c"]),
+                                       obj({"a": {"type": "string", "enum": ["x"]}, "b": {"type": "string", "enum": ["y"]}, "c": {"type": "string", "enum": ["q"]}, "n": INT}, ["a", "b", "c"])]},
+      enf=True),
+    # definitions NAMED like the native type their format maps to (no wrapper type is generated for them) and used only through $ref
+    L("ref_named_like_native_uuid", {"$ref": "#/definitions/Uuid"}, defs={"Uuid": {"type": "string", "format": "uuid"}}, strish=True),
+    L("ref_named_like_native_date", {"$ref": "#/definitions/NaiveDate"}, defs={"NaiveDate": {"type": "string", "format": "date"}}, strish=True),
+    L("ref_named_like_native_datetime", {"$ref": "#/definitions/DateTime"}, defs={"DateTime": {"type": "string", "format": "date-time"}}, strish=True),
+    L("ref_named_like_native_ip", {"$ref": "#/definitions/IpAddr"}, defs={"IpAddr": {"type": "string", "format": "ip"}}, strish=True),
+    L("ref_named_like_native_u8", {"$ref": "#/definitions/U8"}, defs={"U8": {"type": "integer", "format": "uint8", "minimum": 0}}),
+    L("ref_named_like_native_string", {"$ref": "#/definitions/String"}, defs={"String": {"type": "string"}}, strish=True),
     # boolean schemas as union operands (generators write `true` for "anything" and `false` for a removed alternative)
     L("anyof_true_str", {"anyOf": [True, STR]}, ff=False, enf=False, sup=False),
     L("anyof_false_str", {"anyOf": [False, STR]}, ff=False, enf=False, sup=False, strish=True),
